@@ -276,3 +276,50 @@ PROPS["C15"] = {
     "outside": ["member names/sizes/payloads from independent writers, deflate/bzip2 decompression, zip/tar/gif/wav/png structure: whole-file parsing and decompression loops, no bounded kernel (not applicable to this technique)",
                 "hash/crc32 slicing-by-8 path for inputs >= 16 bytes: equivalence query undecided at 60 s (unknown)"],
 }
+
+
+PROPS["C13"] = {
+    "level": "model_checking",
+    "explanation": "each Go function fq registers with the jq VM is looked up in interp.DefaultRegistry at run time and its real entry point (the closure the VM calls, including the argument casting layer of internal/gojqx) is executed with a symbolic jq value as input and as every argument; every Go runtime check (shift count, division, index, slice, allocation size, nil, type assertion) is a solver query; the assertion is that the call returns",
+    "wall_quick": 1500, "wall_thorough": 10800, "solver_timeout_ms": 30000,
+    "harnesses": [
+        {"entry": "pkg/interp.VerifTotalBnot", "clause": "bnot(input; args) over the symbolic jq value domain returns a value or an error value: no Go panic escapes", "bounds": {"values": "nil, bool, any int, 16 float64 class representatives (NaN, +-Inf, +-0, fractions, beyond int64, beyond size limits, denormal), big integers <= 128 bits of either sign, ASCII strings 0..2 bytes, one-element arrays, one-member option objects, binaries 0..2 bytes"}},
+        {"entry": "pkg/interp.VerifTotalBsl", "clause": "bsl(input; args) over the symbolic jq value domain returns a value or an error value: no Go panic escapes", "bounds": {"values": "nil, bool, any int, 16 float64 class representatives (NaN, +-Inf, +-0, fractions, beyond int64, beyond size limits, denormal), big integers <= 128 bits of either sign, ASCII strings 0..2 bytes, one-element arrays, one-member option objects, binaries 0..2 bytes"}},
+        {"entry": "pkg/interp.VerifTotalBsr", "clause": "bsr(input; args) over the symbolic jq value domain returns a value or an error value: no Go panic escapes", "bounds": {"values": "nil, bool, any int, 16 float64 class representatives (NaN, +-Inf, +-0, fractions, beyond int64, beyond size limits, denormal), big integers <= 128 bits of either sign, ASCII strings 0..2 bytes, one-element arrays, one-member option objects, binaries 0..2 bytes"}},
+        {"entry": "pkg/interp.VerifTotalToBits", "tier": "thorough", "clause": "_tobits(input; args) over the symbolic jq value domain returns a value or an error value: no Go panic escapes", "bounds": {"values": "nil, bool, any int, 16 float64 class representatives (NaN, +-Inf, +-0, fractions, beyond int64, beyond size limits, denormal), big integers <= 128 bits of either sign, ASCII strings 0..2 bytes, one-element arrays, one-member option objects, binaries 0..2 bytes"}},
+        {"entry": "pkg/interp.VerifTotalExtKeys", "clause": "_extkeys(input; args) over the symbolic jq value domain returns a value or an error value: no Go panic escapes", "bounds": {"values": "nil, bool, any int, 16 float64 class representatives (NaN, +-Inf, +-0, fractions, beyond int64, beyond size limits, denormal), big integers <= 128 bits of either sign, ASCII strings 0..2 bytes, one-element arrays, one-member option objects, binaries 0..2 bytes"}},
+        {"entry": "pkg/interp.VerifTotalExtType", "clause": "_exttype(input; args) over the symbolic jq value domain returns a value or an error value: no Go panic escapes", "bounds": {"values": "nil, bool, any int, 16 float64 class representatives (NaN, +-Inf, +-0, fractions, beyond int64, beyond size limits, denormal), big integers <= 128 bits of either sign, ASCII strings 0..2 bytes, one-element arrays, one-member option objects, binaries 0..2 bytes"}},
+        {"entry": "pkg/interp.VerifTotalCanDisp", "clause": "_can_display(input; args) over the symbolic jq value domain returns a value or an error value: no Go panic escapes", "bounds": {"values": "nil, bool, any int, 16 float64 class representatives (NaN, +-Inf, +-0, fractions, beyond int64, beyond size limits, denormal), big integers <= 128 bits of either sign, ASCII strings 0..2 bytes, one-element arrays, one-member option objects, binaries 0..2 bytes"}},
+        {"entry": "format/text.VerifTotalFromHex", "clause": "from_hex(input; args) over the symbolic jq value domain returns a value or an error value: no Go panic escapes", "bounds": {"values": "nil, bool, any int, 16 float64 class representatives (NaN, +-Inf, +-0, fractions, beyond int64, beyond size limits, denormal), big integers <= 128 bits of either sign, ASCII strings 0..2 bytes, one-element arrays, one-member option objects, binaries 0..2 bytes"}},
+        {"entry": "format/text.VerifTotalFromURLEncode", "clause": "from_urlencode(input; args) over the symbolic jq value domain returns a value or an error value: no Go panic escapes", "bounds": {"values": "nil, bool, any int, 16 float64 class representatives (NaN, +-Inf, +-0, fractions, beyond int64, beyond size limits, denormal), big integers <= 128 bits of either sign, ASCII strings 0..2 bytes, one-element arrays, one-member option objects, binaries 0..2 bytes"}},
+        {"entry": "format/text.VerifTotalFromURLPath", "clause": "from_urlpath(input; args) over the symbolic jq value domain returns a value or an error value: no Go panic escapes", "bounds": {"values": "nil, bool, any int, 16 float64 class representatives (NaN, +-Inf, +-0, fractions, beyond int64, beyond size limits, denormal), big integers <= 128 bits of either sign, ASCII strings 0..2 bytes, one-element arrays, one-member option objects, binaries 0..2 bytes"}},
+        {"entry": "format/xml.VerifTotalFromXmlentities", "clause": "from_xmlentities(input; args) over the symbolic jq value domain returns a value or an error value: no Go panic escapes", "bounds": {"values": "nil, bool, any int, 16 float64 class representatives (NaN, +-Inf, +-0, fractions, beyond int64, beyond size limits, denormal), big integers <= 128 bits of either sign, ASCII strings 0..2 bytes, one-element arrays, one-member option objects, binaries 0..2 bytes"}},
+        {"entry": "format/toml.VerifTotalToToml", "clause": "_to_toml(input; args) over the symbolic jq value domain returns a value or an error value: no Go panic escapes", "bounds": {"values": "nil, bool, any int, 16 float64 class representatives (NaN, +-Inf, +-0, fractions, beyond int64, beyond size limits, denormal), big integers <= 128 bits of either sign, ASCII strings 0..2 bytes, one-element arrays, one-member option objects, binaries 0..2 bytes"}},
+        {"entry": "format/xml.VerifTotalToXml", "clause": "to_xml(input; args) over the symbolic jq value domain returns a value or an error value: no Go panic escapes", "bounds": {"values": "nil, bool, any int, 16 float64 class representatives (NaN, +-Inf, +-0, fractions, beyond int64, beyond size limits, denormal), big integers <= 128 bits of either sign, ASCII strings 0..2 bytes, one-element arrays, one-member option objects, binaries 0..2 bytes"}},
+        {"entry": "format/yaml.VerifTotalToYaml", "clause": "_to_yaml(input; args) over the symbolic jq value domain returns a value or an error value: no Go panic escapes", "bounds": {"values": "nil, bool, any int, 16 float64 class representatives (NaN, +-Inf, +-0, fractions, beyond int64, beyond size limits, denormal), big integers <= 128 bits of either sign, ASCII strings 0..2 bytes, one-element arrays, one-member option objects, binaries 0..2 bytes"}},
+        {"entry": "pkg/interp.VerifTotalBand", "tier": "thorough", "clause": "band(input; args) over the symbolic jq value domain returns a value or an error value: no Go panic escapes", "bounds": {"values": "nil, bool, any int, 16 float64 class representatives (NaN, +-Inf, +-0, fractions, beyond int64, beyond size limits, denormal), big integers <= 128 bits of either sign, ASCII strings 0..2 bytes, one-element arrays, one-member option objects, binaries 0..2 bytes"}},
+        {"entry": "pkg/interp.VerifTotalBor", "tier": "thorough", "clause": "bor(input; args) over the symbolic jq value domain returns a value or an error value: no Go panic escapes", "bounds": {"values": "nil, bool, any int, 16 float64 class representatives (NaN, +-Inf, +-0, fractions, beyond int64, beyond size limits, denormal), big integers <= 128 bits of either sign, ASCII strings 0..2 bytes, one-element arrays, one-member option objects, binaries 0..2 bytes"}},
+        {"entry": "pkg/interp.VerifTotalBxor", "tier": "thorough", "clause": "bxor(input; args) over the symbolic jq value domain returns a value or an error value: no Go panic escapes", "bounds": {"values": "nil, bool, any int, 16 float64 class representatives (NaN, +-Inf, +-0, fractions, beyond int64, beyond size limits, denormal), big integers <= 128 bits of either sign, ASCII strings 0..2 bytes, one-element arrays, one-member option objects, binaries 0..2 bytes"}},
+        {"entry": "pkg/interp.VerifTotalToValue", "tier": "thorough", "clause": "_tovalue(input; args) over the symbolic jq value domain returns a value or an error value: no Go panic escapes", "bounds": {"values": "nil, bool, any int, 16 float64 class representatives (NaN, +-Inf, +-0, fractions, beyond int64, beyond size limits, denormal), big integers <= 128 bits of either sign, ASCII strings 0..2 bytes, one-element arrays, one-member option objects, binaries 0..2 bytes"}},
+        {"entry": "format/text.VerifTotalToHex", "tier": "thorough", "clause": "to_hex(input; args) over the symbolic jq value domain returns a value or an error value: no Go panic escapes", "bounds": {"values": "nil, bool, any int, 16 float64 class representatives (NaN, +-Inf, +-0, fractions, beyond int64, beyond size limits, denormal), big integers <= 128 bits of either sign, ASCII strings 0..2 bytes, one-element arrays, one-member option objects, binaries 0..2 bytes"}},
+        {"entry": "format/text.VerifTotalToBase64", "tier": "thorough", "clause": "_to_base64(input; args) over the symbolic jq value domain returns a value or an error value: no Go panic escapes", "bounds": {"values": "nil, bool, any int, 16 float64 class representatives (NaN, +-Inf, +-0, fractions, beyond int64, beyond size limits, denormal), big integers <= 128 bits of either sign, ASCII strings 0..2 bytes, one-element arrays, one-member option objects, binaries 0..2 bytes"}},
+        {"entry": "format/text.VerifTotalFromBase64", "tier": "thorough", "clause": "_from_base64(input; args) over the symbolic jq value domain returns a value or an error value: no Go panic escapes", "bounds": {"values": "nil, bool, any int, 16 float64 class representatives (NaN, +-Inf, +-0, fractions, beyond int64, beyond size limits, denormal), big integers <= 128 bits of either sign, ASCII strings 0..2 bytes, one-element arrays, one-member option objects, binaries 0..2 bytes"}},
+        {"entry": "format/text.VerifTotalToURLEncode", "tier": "thorough", "clause": "to_urlencode(input; args) over the symbolic jq value domain returns a value or an error value: no Go panic escapes", "bounds": {"values": "nil, bool, any int, 16 float64 class representatives (NaN, +-Inf, +-0, fractions, beyond int64, beyond size limits, denormal), big integers <= 128 bits of either sign, ASCII strings 0..2 bytes, one-element arrays, one-member option objects, binaries 0..2 bytes"}},
+        {"entry": "format/text.VerifTotalToURLPath", "tier": "thorough", "clause": "to_urlpath(input; args) over the symbolic jq value domain returns a value or an error value: no Go panic escapes", "bounds": {"values": "nil, bool, any int, 16 float64 class representatives (NaN, +-Inf, +-0, fractions, beyond int64, beyond size limits, denormal), big integers <= 128 bits of either sign, ASCII strings 0..2 bytes, one-element arrays, one-member option objects, binaries 0..2 bytes"}},
+        {"entry": "format/text.VerifTotalToStrEnc", "tier": "thorough", "clause": "_to_strencoding(input; args) over the symbolic jq value domain returns a value or an error value: no Go panic escapes", "bounds": {"values": "nil, bool, any int, 16 float64 class representatives (NaN, +-Inf, +-0, fractions, beyond int64, beyond size limits, denormal), big integers <= 128 bits of either sign, ASCII strings 0..2 bytes, one-element arrays, one-member option objects, binaries 0..2 bytes"}},
+        {"entry": "format/text.VerifTotalFromStrEnc", "tier": "thorough", "clause": "_from_strencoding(input; args) over the symbolic jq value domain returns a value or an error value: no Go panic escapes", "bounds": {"values": "nil, bool, any int, 16 float64 class representatives (NaN, +-Inf, +-0, fractions, beyond int64, beyond size limits, denormal), big integers <= 128 bits of either sign, ASCII strings 0..2 bytes, one-element arrays, one-member option objects, binaries 0..2 bytes"}},
+        {"entry": "format/crypto.VerifTotalToHash", "tier": "thorough", "clause": "_to_hash(input; args) over the symbolic jq value domain returns a value or an error value: no Go panic escapes", "bounds": {"values": "nil, bool, any int, 16 float64 class representatives (NaN, +-Inf, +-0, fractions, beyond int64, beyond size limits, denormal), big integers <= 128 bits of either sign, ASCII strings 0..2 bytes, one-element arrays, one-member option objects, binaries 0..2 bytes"}},
+        {"entry": "format/mpeg.VerifTotalNalUnescape", "tier": "thorough", "clause": "nal_unescape(input; args) over the symbolic jq value domain returns a value or an error value: no Go panic escapes", "bounds": {"values": "nil, bool, any int, 16 float64 class representatives (NaN, +-Inf, +-0, fractions, beyond int64, beyond size limits, denormal), big integers <= 128 bits of either sign, ASCII strings 0..2 bytes, one-element arrays, one-member option objects, binaries 0..2 bytes"}}
+    ],
+    "assumptions": [
+        "mapstruct.ToStruct (reflection: creasty/defaults + mitchellh/mapstructure) is replaced by the engine's implementation for string/bool/int/float fields incl. default tags",
+        "third-party encoders behind fq's wrappers (BurntSushi/toml, yaml.v3, encoding/xml Encoder methods) are contract stubs: they return; yaml SetIndent's documented precondition is checked",
+        "shift amounts in (70, 2^32] (big integer shift amounts: 10 class representatives) and indents in (8, 1024] are excluded: legal values that only make the result large",
+        "float64 inputs are 16 class representatives, not all bit patterns: with fully symbolic floats the float->int conversions (fp.to_sbv) leave z3 undecided within the limit (measured: 25 of 68k queries unknown at 30 s, workers stuck)",
+        "number formatting of symbolic numbers (strconv) returns a placeholder numeral",
+        "paths on which symbolic text is not ASCII are cut where the code converts between strings and runes",
+    ],
+    "outside": ["functions defined in jq text", "functions that need evaluator state or the OS (_eval, _stdio_*, _display, _hexdump, _print_color_json, _readline, history, open, _decode, _registry, _global_state, _match_binary, _query_*)",
+                "to_urlquery/from_urlquery/to_url/from_url/to_xmlentities/_to_csv/_to_json/to_jsonl: exploration does not finish (map keys / replacers over symbolic text, FP-heavy paths): not claimed",
+                "everything behind a stub"],
+}
